@@ -233,6 +233,7 @@ pub struct Cfg {
     pub leios: bool,
 }
 
+#[allow(dead_code)]
 #[derive(Debug, Clone)]
 pub enum Out {
     Connect(u8),
